@@ -45,6 +45,8 @@ type UMsg struct {
 	// cPanic: the panic value is an *actor.InternalError (restart that does not
 	// use up the restart budget)
 	Internal bool
+	// cPanic: the panic is raised 150 frames below Receive
+	Deep bool
 	// cSpawnChild: observer of the stages of the SpawnChild call
 	Hook func(stage int)
 }
@@ -59,6 +61,9 @@ func (m *UMsg) String() string {
 		s += "!panic"
 		if m.Internal {
 			s += "(InternalError)"
+		}
+		if m.Deep {
+			s += "(deep)"
 		}
 	case cSpawnChild:
 		s += "!spawn:" + m.Name
@@ -497,6 +502,14 @@ func (s *scripted) Receive(c *actor.Context) {
 	}
 }
 
+//go:noinline
+func deepPanic(depth int, v string) int {
+	if depth == 0 {
+		panic(v)
+	}
+	return deepPanic(depth-1, v) + 1
+}
+
 func (s *scripted) obey(c *actor.Context, m *UMsg) {
 	env, in := s.env, s.in
 	switch m.Op {
@@ -506,6 +519,12 @@ func (s *scripted) obey(c *actor.Context, m *UMsg) {
 			panic(&actor.InternalError{From: fmt.Sprintf("scripted crash on %s in %s inc %d", m, in.ID, s.inc), Err: fmt.Errorf("scripted")})
 		}
 		simrt.Fault("actor-crash-in-Receive")
+		if m.Deep {
+			// raised at the bottom of a deep call chain (the runtime elides frames
+			// from the trace that the restart path parses)
+			simrt.Fault("actor-crash-deep-stack")
+			deepPanic(150, fmt.Sprintf("scripted crash on %s in %s inc %d", m, in.ID, s.inc))
+		}
 		panic(fmt.Sprintf("scripted crash on %s in %s inc %d", m, in.ID, s.inc))
 	case cSpawnChild:
 		env.ev("spawnchild", in.ID, m.Spec.FullID(), nil, nil)
